@@ -1,7 +1,7 @@
 (* line protocol (one answer line per request line):
    name <vendor> <model> <idtype> <ridhex|-> <fwhex|-> <caps:0|1> <ident:0|1>
         -> "ok name=<hex> v=<n> m=<n> fw=<hex|->"  |  "none"
-   run <dl> <dial> <rd|-> <send> D <n> {<addr> <up|down|unknown> <namehex>}*n
+   run <dl> <dial> <rd|-> <send> P <scanport> D <n> {<host> <port|0=no address> <up|down|unknown> <namehex>}*n
                                  H <k> {<addr> <behaviour> <vendor> <model> <idtype> <ridhex|->}*k
                                  W <w> {<len> <addr>*len}*w
         -> "probed=<a,..> reported=<namehex@a,..> discovered=<namehex@a,..> time=<n|never>"
@@ -47,16 +47,17 @@ let () =
           | None -> print_endline "none"
           | Some i -> Printf.printf "ok name=%s v=%d m=%d fw=%s\n" (hex_of_codes i.i_name) (int_of_n i.i_vendor)
                         (int_of_n i.i_model) (hex_of_codes i.i_fw))
-       | "run" :: dl :: dial :: rd :: send :: "D" :: rest ->
+       | "run" :: dl :: dial :: rd :: send :: "P" :: sport :: "D" :: rest ->
          let a = Array.of_list rest in
          let pos = ref 0 in
          let next () = let x = a.(!pos) in incr pos; x in
          let nd = int_of_string (next ()) in
          let devs = List.init nd (fun _ ->
              let addr = n_of_int (int_of_string (next ())) in
+             let port = int_of_string (next ()) in
              let st = (match next () with "up" -> Up | "down" -> Down | _ -> UnknownState) in
              let name = bytes_of_hex (next ()) in
-             { d_name = name; d_addr = Some addr; d_state = st }) in
+             { d_name = name; d_addr = (if port = 0 then None else Some (addr, n_of_int port)); d_state = st }) in
          if next () <> "H" then failwith "expected H";
          let nh = int_of_string (next ()) in
          let tbl = Hashtbl.create 16 in
@@ -80,13 +81,14 @@ let () =
                     send_timeout = n_of_int (int_of_string send) } in
          let dl = n_of_int (int_of_string dl) in
          let dm = make_device_map devs in
-         let probed = List.sort compare (List.map int_of_n (run_probed tm dl dm hosts work)) in
-         let rep = run_reported tm dl dm hosts work in
+         let sport = n_of_int (int_of_string sport) in
+         let probed = List.sort compare (List.map int_of_n (run_probed tm dl dm sport hosts work)) in
+         let rep = run_reported tm dl dm sport hosts work in
          let show l = String.concat "," (List.sort compare
                                            (List.map (fun (a, i) -> hex_of_codes i.i_name ^ "@" ^ string_of_int (int_of_n a)) l)) in
          Printf.printf "probed=%s reported=%s discovered=%s time=%s\n"
            (String.concat "," (List.map string_of_int probed)) (show rep) (show (discovered devs rep))
-           (match run_time tm dl dm hosts work with None -> "never" | Some t -> string_of_int (int_of_n t))
+           (match run_time tm dl dm sport hosts work with None -> "never" | Some t -> string_of_int (int_of_n t))
        | [] -> ()
        | _ -> print_endline ("error: bad request: " ^ line))
     done
